@@ -244,7 +244,7 @@ PROPS["C06"] = P(
         J("c06_kv_script_region", unwind=6, uw=LK_UW, desc="all 215 SCRIPT_REGION keys"),
         J("c06_kv_lang_region", unwind=6, uw=LK_UW, desc="all 62 LANG_REGION keys"),
         J("c06_kv_lang_script", unwind=6, uw=LK_UW, desc="all 378 LANG_SCRIPT keys"),
-        J("c06_kv_lang_only", tier="x", unwind=6, uw=LK_UW, desc="all 7142 LANG_ONLY keys except bare und", weight=5, mem_gb=40, cbmc=["--no-pointer-check"], trace=False, timeout_t=5400),
+        J("c06_kv_lang_only", tier="t", unwind=6, uw=LK_UW, desc="all 7142 LANG_ONLY keys except bare und", weight=5, mem_gb=40, cbmc=["--no-pointer-check"], trace=False, timeout_t=5400),
         J("c06_cascade_und", unwind=6, uw=LK_UW, desc="arbitrary (und, script?, region?) vs reference cascade over the three und tables", weight=2),
         J("c06_cascade_zh", unwind=6, uw=LK_UW, desc="(zh, script?, region?) vs reference cascade: concrete language with language-region and language-script entries", weight=2),
         J("c06_cascade_sr", unwind=6, uw=LK_UW, desc="(sr, script?, region?) vs reference cascade", weight=2),
@@ -252,8 +252,8 @@ PROPS["C06"] = P(
         J("c06_cascade_lang", tier="x", unwind=6, uw=LK_UW, desc="arbitrary (language, script?, region?) vs reference cascade incl. the 7143-row table", weight=5, mem_gb=40, cbmc=["--no-pointer-check"], trace=False, timeout_t=5400),
         J("c06_wrapper_und", unwind=6, uw=mk(VAL_UW, LK_UW), desc="LanguageIdentifier::maximize bool + write-back, und language, <=1 variant", weight=2),
     ],
-    bounds="K->V: every row of the five small tables by symbolic index; cascade: every valid (script?, region?) with und language and with the concrete languages zh, sr and qaa (unknown to CLDR)",
-    outside="arbitrary symbolic languages, i.e. lookups in the 7143-row language table with a symbolic key (K->V over LANG_ONLY and the arbitrary-language cascade are kept for reference, not verified to completion in the final session); that table's content is decided row by row under C18; bare 'und' key; UTS #35 fallbacks the library does not implement are accepted either way (property text)",
+    bounds="K->V: every row of the five small tables (quick) and all 7142 keys of the language-only table (thorough) by symbolic row index; cascade: every valid (script?, region?) with und language and with the concrete languages zh, sr and qaa (unknown to CLDR)",
+    outside="the cascade for an arbitrary symbolic language (language-region / language-script / language-only lookups and the reference's own search in one query: no result in 20 min; kept for reference) - for symbolic languages only the language-only K->V clause is decided (thorough); bare 'und' key; UTS #35 fallbacks the library does not implement are accepted either way (property text)",
     assumptions=["reference tables are re-derived from data/likelySubtags.json by tools/cldr_ref.py on every run; C18 decides that the compiled tables equal them"],
 )
 PROPS["C07"] = P(
@@ -262,23 +262,23 @@ PROPS["C07"] = P(
         J("c07_laws_zh", unwind=6, uw=LK_UW, desc="the same laws for the concrete language zh, every valid (script?, region?)", weight=2),
         J("c07_laws_unknown_qaa", unwind=6, uw=LK_UW, desc="same for qaa, a language without CLDR entry (must never be replaced by a table language)", weight=2),
         J("c07_laws_lang", tier="x", unwind=6, uw=LK_UW, desc="same for arbitrary non-empty language (touches the 7143-row table)", weight=5, mem_gb=40, cbmc=["--no-pointer-check"], trace=False, timeout_t=5400),
-        J("c07_full_is_fixpoint", tier="x", unwind=6, uw=LK_UW, desc="language+script+region all present => maximize is None / false / unchanged (closes idempotence); the language's emptiness is a niche value of its first byte, so CBMC also explores the table branch", weight=5, mem_gb=40, cbmc=["--no-pointer-check"], trace=False, timeout_t=5400),
+        J("c07_full_is_fixpoint", tier="t", unwind=6, uw=LK_UW, desc="language+script+region all present => maximize is None / false / unchanged (closes idempotence); the language's emptiness is a niche value of its first byte, so CBMC also explores the table branch", weight=5, mem_gb=40, cbmc=["--no-pointer-check"], trace=False, timeout_t=5400),
         J("c07_wrapper_und", unwind=6, uw=mk(VAL_UW, LK_UW), desc="LanguageIdentifier::maximize: variants untouched, bool<=>changed, false=>unchanged, idempotent; und language, <=2 variants", weight=3, mem_gb=12),
     ],
-    bounds="every valid (script?, region?) with und language and with the concrete languages zh and qaa (unknown to CLDR) ; wrapper with 0..2 variants",
-    outside="arbitrary symbolic languages (7143-row table with a symbolic key: harnesses kept for reference, not verified to completion), hence idempotence is decided as 'all three present afterwards' only; Locale extensions attached to the identifier (Locale.id is a plain LanguageIdentifier field; extension state is not reachable from LanguageIdentifier::maximize)",
+    bounds="every valid (script?, region?) with und language and with the concrete languages zh and qaa (unknown to CLDR) ; thorough adds: every valid (language, script, region) with all three present is a fixed point; wrapper with 0..2 variants",
+    outside="the add-only laws for an arbitrary symbolic language (kept for reference); for symbolic languages the thorough tier decides the fixed-point clause (a triple with all three present is left alone, which with 'all three present afterwards' gives idempotence); Locale extensions attached to the identifier (Locale.id is a plain LanguageIdentifier field; extension state is not reachable from LanguageIdentifier::maximize)",
 )
 PROPS["C14"] = P(
     jobs=[
         J("c14_rows_direct", unwind=6, uw=LK_UW, desc="symbolic row over the CLDR locale directories whose answer needs no likely script"),
         J("c14_rows_direct", cfg="nolikely", unwind=6, uw=LK_UW, desc="same rows, built without the likelysubtags feature"),
-        J("c14_rows_likely", tier="x", unwind=6, uw=LK_UW, desc="script-less rows of RTL-listed languages, likelysubtags on (7143-row table)", weight=5, mem_gb=40, cbmc=["--no-pointer-check"], trace=False, timeout_t=5400),
+        J("c14_rows_likely", tier="t", unwind=6, uw=LK_UW, desc="script-less rows of RTL-listed languages, likelysubtags on (7143-row table)", weight=5, mem_gb=40, cbmc=["--no-pointer-check"], trace=False, timeout_t=5400),
         J("c14_rows_likely", cfg="nolikely", unwind=6, uw=LK_UW, desc="same rows without likelysubtags: may differ only for multi-direction languages"),
-        J("c14_script_decides", tier="x", unwind=6, uw=mk(VAL_UW, LK_UW), desc="arbitrary identifier with <=1 variant: listed script decides; unlisted script + non-RTL language => LTR; variants irrelevant (likelysubtags on: the RTL-language branch drags in the 7143-row table)", weight=5, mem_gb=40, cbmc=["--no-pointer-check"], trace=False, timeout_t=5400),
+        J("c14_script_decides", tier="t", unwind=6, uw=mk(VAL_UW, LK_UW), desc="arbitrary identifier with <=1 variant: listed script decides; unlisted script + non-RTL language => LTR; variants irrelevant (likelysubtags on: the RTL-language branch drags in the 7143-row table)", weight=5, mem_gb=40, cbmc=["--no-pointer-check"], trace=False, timeout_t=5400),
         J("c14_script_decides", cfg="nolikely", unwind=6, uw=mk(VAL_UW, LK_UW), desc="same, without likelysubtags", weight=2),
     ],
     bounds="all 709 non-root CLDR locale directories by symbolic row index in both feature configurations; arbitrary valid (language, script?, region?, <=1 variant) for the script/language clauses",
-    outside="arbitrary identifiers of RTL-listed languages without a listed script (their answer is defined only through the rows); with likelysubtags on, the script-less rows of RTL-listed languages (they reach the 7143-row table with a symbolic key) and the arbitrary-identifier clauses are kept for reference, not verified to completion; both are decided in the configuration without likelysubtags",
+    outside="arbitrary identifiers of RTL-listed languages without a listed script (their answer is defined only through the rows); with likelysubtags on, the script-less rows of RTL-listed languages and the arbitrary-identifier clauses reach the 7143-row table and are thorough-tier; the quick tier decides them in the configuration without likelysubtags",
 )
 
 def uf(name, lens, tier="q", **kw):
